@@ -318,6 +318,11 @@ func c01Monitor(m *vk.Meta, in c01In, out c01Out) {
 				continue
 			}
 			have := vk.GtidUnion(s.Executed, s.Retrieved)
+			if h == p.Host {
+				// what the promoted node itself had received and threw away unexecuted on its way (RESET REPLICA ALL /
+				// re-pointing drop the relay log) is held "merely received" as well
+				have = vk.GtidUnion(have, s.Dropped)
+			}
 			switch {
 			case !s.RO:
 				offenders = append(offenders, h+" is not read-only")
@@ -485,6 +490,20 @@ func c01Gen(o *vk.Out) c01In {
 	}
 	if r.Intn(20) == 0 {
 		in.LockLostAt = r.Intn(2)
+	}
+	if r.Intn(8) == 0 {
+		// the async escape hatch: an automatic failover to replicas that have received more than they can apply (SQL
+		// thread stopped); promotion without full catch-up is allowed only while the repl_mon delay is below async_allowed_lag
+		in.SemiSync, in.Async = false, true
+		in.From, in.To, in.Cause, in.Transition = "h1", "", CauseAuto, "failover"
+		in.Nodes[0].Down = true
+		in.AllowedLag = []int{10, 100}[r.Intn(2)]
+		in.ReplMonDelay = int64([]int{5, 50, 500, 3000}[r.Intn(4)])
+		in.LockLostAt = -1
+		for i := 1; i < in.N; i++ {
+			in.Nodes[i].Executed, in.Nodes[i].Retrieved, in.Nodes[i].SQLStopped = "1-100", "1-105", true
+			in.Nodes[i].Extra, in.Nodes[i].IOErrno = "", 0
+		}
 	}
 	return in
 }
